@@ -38,10 +38,11 @@ def _build_overlay(edits) -> dict | None:
         if src.count(old) != 1:
             return None  # anchor text moved: mutant not applicable to this tree
         src = src.replace(old, new, 1)
-        try:
-            compile(src, rel, "exec")
-        except SyntaxError:
-            return None
+        if rel.endswith(".py"):
+            try:
+                compile(src, rel, "exec")
+            except SyntaxError:
+                return None
         overlay[rel] = src
     return overlay
 
